@@ -92,7 +92,7 @@ m = {
              for n, p in sorted(engines.items())],
  "checks": checks,
  "not_applicable": na,
- "notes": "Technique family: deterministic simulation with fault injection. exit 0 = held, exit 1 = VIOLATION line with replay file (a minimised plan, plus a minimised process history when the violation needs earlier runs in the same process), exit 2 = harness error (nothing claimed). VERIF_SEED selects the seed family; VERIF_WORKERS the pool size; VERIF_REPO the tree under test. Fifteen defects of pypose found here were repaired by fix: commits and are listed in known_findings.json with status 'fixed'; 231 independently seeded changes are kept under seeded/ (223 caught, 8 recorded as not caught with the reason in DESIGN.md 8.5).",
+ "notes": "Technique family: deterministic simulation with fault injection. exit 0 = held, exit 1 = VIOLATION line with replay file (a minimised plan, plus a minimised process history when the violation needs earlier runs in the same process), exit 2 = harness error (nothing claimed). VERIF_SEED selects the seed family; VERIF_WORKERS the pool size; VERIF_REPO the tree under test. Fifteen defects of pypose found here were repaired by fix: commits and are listed in known_findings.json with status 'fixed'; 231 independently seeded changes are kept under seeded/ (225 caught, 6 recorded as not caught with the reason in DESIGN.md 8.5).",
 }
 json.dump(m, open(os.path.join(HERE, "MANIFEST.json"), "w"), indent=1)
 print("MANIFEST.json: %d checks, %d not_applicable" % (len(checks), len(na)))
